@@ -23,7 +23,7 @@ Qed.
 
 Ltac proj := cbn [height now ubtime vals prm proposal keys recs by_bridger by_ext total_power deleg ubds reds
                   bal_o bal_d sets latest_set slashed_set last_slash_height batches slashed_batch_block calls
-                  slashed_call next_call burned gov_und
+                  slashed_call next_call burned gov_und set_mem last_obs
                   o_addr o_bridger o_ext o_amount o_start o_online o_val o_slash
                   l_recs l_lsh l_has] in *.
 
@@ -347,27 +347,45 @@ Proof.
     unfold_power; (split; [| split; reflexivity]); apply slash_three_same.
 Qed.
 
-Lemma create_set_recs : forall s pd,
-  recs (create_set s pd) = recs s /\ by_bridger (create_set s pd) = by_bridger s /\
-  by_ext (create_set s pd) = by_ext s.
+(* createOracleSetRequest and pruneOracleSet touch oracle sets only *)
+Definition same_registry (s s' : state) : Prop :=
+  recs s' = recs s /\ by_bridger s' = by_bridger s /\ by_ext s' = by_ext s /\ keys s' = keys s /\
+  proposal s' = proposal s /\ deleg s' = deleg s /\ gov_und s' = gov_und s /\ prm s' = prm s /\
+  burned s' = burned s /\ bal_o s' = bal_o s /\ bal_d s' = bal_d s /\ ubds s' = ubds s /\
+  height s' = height s /\ vals s' = vals s.
+
+Lemma create_set_same : forall s s3, create_set s = Some s3 -> same_registry s s3.
 Proof.
-  intros. unfold create_set.
-  match goal with |- context[if ?c then _ else _] => destruct c end; unfold_power; auto.
+  intros s s3 H. unfold create_set in H. destruct (need_set s) as [need|]; [|discriminate].
+  inversion H; subst; clear H.
+  match goal with |- context[if ?c then _ else _] => destruct c end; unfold same_registry; unfold_power;
+    repeat split; reflexivity.
 Qed.
 
+Lemma prune_sets_same : forall s, same_registry s (prune_sets s).
+Proof.
+  intros s. unfold prune_sets. destruct (last_obs s); [|unfold same_registry; repeat split; reflexivity].
+  destruct (height s <? p_window (prm s)); unfold same_registry, set_objs; proj; repeat split; reflexivity.
+Qed.
+
+Lemma same_registry_trans : forall a b c, same_registry a b -> same_registry b c -> same_registry a c.
+Proof. unfold same_registry. intros. intuition congruence. Qed.
+
 Lemma end_block_inv : forall s t1 t2 pd s', end_block s t1 t2 pd = Ok s' ->
-  exists s2, slashing (staking_end s t1) = Some s2 /\ s' = next_block (create_set s2 pd) t2.
+  exists s2 s3, slashing (staking_end s t1) = Some s2 /\ create_set s2 = Some s3 /\
+                s' = next_block (prune_sets s3) t2.
 Proof.
   intros s t1 t2 pd s' H. unfold end_block in H.
-  destruct (slashing (staking_end s t1)) as [s2|]; [|discriminate]. inversion H; subst. eauto.
+  destruct (slashing (staking_end s t1)) as [s2|]; [|discriminate].
+  destruct (create_set s2) as [s3|] eqn:C; [|discriminate]. inversion H; subst. eauto.
 Qed.
 
 Lemma end_block_recs : forall s t1 t2 pd s', end_block s t1 t2 pd = Ok s' ->
   same_ids (recs s) (recs s') /\ by_bridger s' = by_bridger s /\ by_ext s' = by_ext s.
 Proof.
-  intros s t1 t2 pd s' H. apply end_block_inv in H. destruct H as (s2 & H2 & ->).
+  intros s t1 t2 pd s' H. apply end_block_inv in H. destruct H as (s2 & s3 & H2 & H3 & ->).
   apply slashing_recs in H2. destruct H2 as (A & B & C).
-  destruct (create_set_recs s2 pd) as (D & E & F).
+  destruct (same_registry_trans _ _ _ (create_set_same _ _ H3) (prune_sets_same s3)) as (D & E & F & _).
   unfold next_block; proj. rewrite D, E, F. auto.
 Qed.
 
@@ -499,6 +517,7 @@ Proof.
   - unfold env_val in H. inversion H; subst. exact I.
   - unfold exec_batch in H. guards H. inversion H; subst. exact I.
   - eapply export_import_idx; eauto.
+  - unfold observe_set in H. guards H. inversion H; subst. exact I.
   - eapply end_block_idx; eauto.
 Qed.
 
